@@ -77,7 +77,12 @@ func NewTerminfoScreenFromTtyTerminfo(tty Tty, ti *terminfo.Terminfo) (s Screen,
 		}
 	}
 
-	t := &tScreen{ti: ti, tty: tty}
+	// The screen adjusts its description (XTermLike); work on a private
+	// copy so that neither the caller's value nor the shared database
+	// entry returned by the lookup is modified.
+	nti := *ti
+	t := &tScreen{ti: &nti, tty: tty}
+	ti = t.ti
 
 	t.keyexist = make(map[Key]bool)
 	t.keycodes = make(map[string]*tKeyCode)
